@@ -68,6 +68,7 @@ type frame struct {
 	bindVals map[string]sval
 	callSeqN map[string]int
 	kcell    ssa.Value
+	dynCalls int
 }
 
 func (fr *frame) name(v ssa.Value) string {
@@ -515,6 +516,9 @@ func (fr *frame) encodeInstr(in ssa.Instruction, st *State, g string) {
 		fr.vals[x] = r
 		et := x.Type().Underlying().(*types.Pointer).Elem()
 		vc.store(st, r, et, vc.zero(et))
+		if !addrEscapes(x, map[ssa.Value]bool{}, 0) {
+			vc.localCells = append(vc.localCells, localCell{addr: r, typ: et, alloc: x})
+		}
 	case *ssa.Store:
 		addr := fr.val(x.Addr)
 		fr.nilCheckAddr(x.Addr, addr, g, x.Pos())
@@ -1112,7 +1116,7 @@ func (fr *frame) indexAddr(x *ssa.IndexAddr, st *State, g string) {
 	switch t := x.X.Type().Underlying().(type) {
 	case *types.Slice:
 		fr.hazard("idx", g, fmt.Sprintf("(and (<= 0 %s) (< %s (s_len %s)))", i, i, a), x.Pos(), "slice index in range")
-		fr.set(x, vc.ea("(s_arr "+a+")", "(+ (s_off "+a+") "+i+")"))
+		fr.set(x, vc.sliceElem(a, i))
 	case *types.Pointer: // pointer to array
 		arr := t.Elem().Underlying().(*types.Array)
 		fr.hazard("nil", g, "(not (= "+a+" 0))", x.Pos(), "index of nil array pointer")
@@ -1313,6 +1317,96 @@ func (fr *frame) next(x *ssa.Next, st *State, g string) {
 		}
 	}
 	vc.note("range over map/string: iteration order and coverage are not modelled (each step yields an arbitrary remaining element)")
+}
+
+// addrEscapes: can the address v (an Alloc, or a FreeVar/parameter standing for one) reach code outside the function
+// and the closures it invokes itself? Uses: loads, stores *to* it, field/index addressing, and capture by closures
+// that are only called/deferred directly (their own use of the captured address is checked recursively).
+func addrEscapes(v ssa.Value, seen map[ssa.Value]bool, depth int) bool {
+	if seen[v] {
+		return false
+	}
+	seen[v] = true
+	if depth > 4 || v.Referrers() == nil {
+		return true
+	}
+	for _, ref := range *v.Referrers() {
+		switch x := ref.(type) {
+		case *ssa.DebugRef:
+		case *ssa.UnOp:
+			if x.Op != token.MUL {
+				return true
+			}
+		case *ssa.Store:
+			if x.Val == v {
+				return true
+			}
+		case *ssa.FieldAddr:
+			if addrEscapes(x, seen, depth) {
+				return true
+			}
+		case *ssa.IndexAddr:
+			if addrEscapes(x, seen, depth) {
+				return true
+			}
+		case *ssa.MakeClosure:
+			// the closure value must only be called or deferred directly
+			if x.Referrers() == nil {
+				return true
+			}
+			for _, cr := range *x.Referrers() {
+				switch c := cr.(type) {
+				case *ssa.Defer:
+					if c.Call.Value != x {
+						return true
+					}
+				case *ssa.Call:
+					if c.Call.Value != x {
+						return true
+					}
+				case *ssa.DebugRef:
+				default:
+					return true
+				}
+			}
+			fn := x.Fn.(*ssa.Function)
+			for i, b := range x.Bindings {
+				if b == v {
+					if addrEscapes(fn.FreeVars[i], seen, depth+1) {
+						return true
+					}
+				}
+			}
+		case *ssa.Call:
+			// passing the address to a static callee of the same package that does not leak it (checked recursively on the parameter)
+			callee := x.Call.StaticCallee()
+			if callee == nil || len(callee.Blocks) == 0 || x.Call.IsInvoke() {
+				return true
+			}
+			for i, a := range x.Call.Args {
+				if a == v {
+					if i >= len(callee.Params) || addrEscapes(callee.Params[i], seen, depth+1) {
+						return true
+					}
+				}
+			}
+		case *ssa.Defer:
+			callee := x.Call.StaticCallee()
+			if callee == nil || len(callee.Blocks) == 0 {
+				return true
+			}
+			for i, a := range x.Call.Args {
+				if a == v {
+					if i >= len(callee.Params) || addrEscapes(callee.Params[i], seen, depth+1) {
+						return true
+					}
+				}
+			}
+		default:
+			return true
+		}
+	}
+	return false
 }
 
 // ---------------------------------------------------------------- local names (for loop invariants)
